@@ -13,6 +13,8 @@
                                     -> "FAULT err=0|1 | OPEN ok=.. err=.. ents=.."   (reopen of what is left, nothing lost)
      GO                             run the pending operation to completion       -> "DONE ok=0|1 seq cur files"
      EXIT                           the process exits (everything written stays)  -> "OK"
+     SAVE / RESTORE                 push / pop the whole model state
+     LOAD k a|b                     the process dies before call k of the pending operation: continue from that crash image
      ENT id                         entries of the sst with model id              -> "e,e,e"
      IMG                            the directory: names with data/durable counts
 
@@ -101,6 +103,7 @@ let () =
   let s : fs ref = ref [] in
   let v : vstate option ref = ref None in
   let pend = ref PNone in
+  let saved : (fs * vstate option * pending) list ref = ref [] in
   let prog_of () : prog * bool =
     match !pend with
     | POpen -> let ((p, _), ok) = open_prog !s in (p, ok)
@@ -109,8 +112,8 @@ let () =
   let reopen (img : fs) : string * fs * prog =
     let ((p, v'), ok) = open_prog img in
     let (s', e) = run_prog p None O img None in
-    (Printf.sprintf "OPEN ok=%d err=%d ents=%s" (if ok then 1 else 0) (match e with None -> 0 | Some _ -> 1)
-       (show_entries (all_entries v')), s', p) in
+    (Printf.sprintf "OPEN ok=%d err=%d seq=%s cur=%s ents=%s" (if ok then 1 else 0) (match e with None -> 0 | Some _ -> 1)
+       (dec_of_n v'.v_seq) (dec_of_n v'.v_cur) (show_entries (all_entries v')), s', p) in
   let image m st = if m = "a" then image_a st else image_b st in
   try
     while true do
@@ -174,6 +177,15 @@ let () =
                     | None -> Printf.sprintf "DONE ok=%d" (if ok then 1 else 0))
                | PNone -> "ERROR nothing pending")
           | ["EXIT"] -> s := image_a !s; v := None; pend := PNone; "OK"
+          | ["SAVE"] -> saved := (!s, !v, !pend) :: !saved; "OK"
+          | ["RESTORE"] ->
+              (match !saved with
+               | (s0, v0, p0) :: r -> s := s0; v := v0; pend := p0; saved := r; "OK"
+               | [] -> "ERROR nothing saved")
+          | ["LOAD"; k; m] ->
+              (* the process dies before call k of the pending operation; the directory is the crash image *)
+              let (p, _) = prog_of () in
+              s := image m (prefix_state p (nat_of_int (int_of_string k)) !s); v := None; pend := PNone; "OK"
           | ["ENT"; i] -> show_entries (Hashtbl.find sst_of_id (int_of_string i))
           | ["IMG"] ->
               String.concat " " (List.map (fun (nm, f) -> Printf.sprintf "%s/%d/%d" (show_name nm) (List.length f.f_data) (int_of_nat f.f_dur)) !s)
